@@ -467,7 +467,8 @@ def wrap_funnels(world: 'World') -> None:
     def remove(self, itask, *a, **kw):
         w = _CUR[0]
         if w is not None:
-            w.emit('remove', itask=itask)
+            w.emit('remove', itask=itask,
+                   reason=(a[0] if a else kw.get('reason')))
         return o_rm(self, itask, *a, **kw)
     TaskPool.remove = remove
 
